@@ -26,14 +26,21 @@ def insert : List Nat → Nat → List Nat × Bool
 /-- `HpoGroup::contains` -/
 def contains (l : List Nat) (x : Nat) : Bool := l.elem x
 
-/-- `BitOr for &HpoGroup`: merge of two ascending vectors, equal heads emitted once. -/
+/-- inner loop of the merge for a fixed head `a` of the left operand; `rec` continues with the
+left tail. (Written as two nested structural recursions so that the kernel can evaluate it.) -/
+def mergeAux (a : Nat) (rec : List Nat → List Nat) : List Nat → List Nat
+  | [] => a :: rec []
+  | b :: r =>
+    if a < b then a :: rec (b :: r)
+    else if b < a then b :: mergeAux a rec r
+    else a :: rec r
+
+/-- `BitOr for &HpoGroup`: merge of two ascending vectors, equal heads emitted once:
+`bitor (a :: l) (b :: r) = if a < b then a :: bitor l (b :: r) else if b < a then b :: bitor (a :: l) r
+else a :: bitor l r` (theorem `bitor_cons_cons`). -/
 def bitor : List Nat → List Nat → List Nat
   | [], r => r
-  | l, [] => l
-  | a :: l, b :: r =>
-    if a < b then a :: bitor l (b :: r)
-    else if b < a then b :: bitor (a :: l) r
-    else a :: bitor l r
+  | a :: l, r => mergeAux a (bitor l) r
 
 /-- `BitAnd for &HpoGroup`: scan the operand that is not longer, keep what the other contains. -/
 def bitand (l r : List Nat) : List Nat :=
